@@ -187,11 +187,28 @@ func OptionsStar(run *kit.Run) {
 // writer keeps committing unrelated routes. The handler compares what its Context exposes with what the request
 // encodes. Bounded by iterations, not time.
 func ParamStorm(run *kit.Run) {
+	paramStorm(run, false)
+	// again on a router whose middleware forwards a CloneWith copy of the context (the documented pattern for
+	// middleware that wraps the writer): copies taken from slash-adjusted and direct matches live side by side
+	paramStorm(run, true)
+}
+
+func paramStorm(run *kit.Run, forward bool) {
 	iters := run.Pick(4000, 60000)
 	if run.Mode() == "race" {
 		iters = run.Pick(1500, 15000)
 	}
-	f, err := fox.New(fox.WithIgnoreTrailingSlash(true))
+	opts := []fox.GlobalOption{fox.WithIgnoreTrailingSlash(true)}
+	if forward {
+		opts = append(opts, fox.WithMiddleware(func(next fox.HandlerFunc) fox.HandlerFunc {
+			return func(c fox.Context) {
+				cc := c.CloneWith(c.Writer(), c.Request())
+				defer cc.Close()
+				next(cc)
+			}
+		}))
+	}
+	f, err := fox.New(opts...)
 	if err != nil {
 		run.Inconclusive("fox.New: %v", err)
 		return
@@ -286,9 +303,84 @@ func ParamStorm(run *kit.Run) {
 	stop.Store(true)
 	wwg.Wait()
 	if m := bad.Load(); m != nil {
-		run.Violate("param-storm", "a request was served with parameters that are not its own: "+*m, map[string]any{"workers": workers, "seed": run.Seed()})
+		run.Violate(fmt.Sprintf("param-storm|forward=%t", forward), "a request was served with parameters that are not its own: "+*m, map[string]any{"workers": workers, "seed": run.Seed()})
 	}
-	run.Case("param-storm", true)
+	run.Case(fmt.Sprintf("param-storm|forwarding-middleware=%t", forward), true)
 	run.Count("param_storm_requests_checked", served.Load())
 	run.Count("param_storm_goroutines", int64(workers))
 }
+
+// AllowFlip: one request is served from one routing state. Transactions flip the methods registered for a path
+// between two disjoint sets; the Allow header of a 405 / automatic OPTIONS reply computed while they commit must be
+// exactly one of the two sets, never a mixture (several lookups inside one ServeHTTP must use the same tree).
+func AllowFlip(run *kit.Run) {
+	rounds := run.Pick(10, 100)
+	setA := []string{"GET", "POST", "FOO"}
+	setB := []string{"PUT", "PATCH", "BAR"}
+	want := map[string]bool{"FOO, GET, POST": true, "BAR, PATCH, PUT": true, "FOO, GET, OPTIONS, POST": true, "BAR, OPTIONS, PATCH, PUT": true}
+	var replies, mixed atomic.Int64
+	for round := 0; round < rounds; round++ {
+		f, _ := fox.New(fox.WithNoMethod(true), fox.WithAutoOptions(true))
+		h := func(fox.Context) {}
+		for _, m := range setA {
+			f.MustHandle(m, "/flip/{id}", h)
+		}
+		var wg sync.WaitGroup
+		var stop atomic.Bool
+		wg.Add(1)
+		go func() {
+			defer wg.Done()
+			cur, other := setA, setB
+			for i := 0; i < 300 && !stop.Load(); i++ {
+				_ = f.Updates(func(txn *fox.Txn) error {
+					for _, m := range cur {
+						if _, err := txn.Delete(m, "/flip/{id}"); err != nil {
+							return err
+						}
+					}
+					for _, m := range other {
+						if _, err := txn.Handle(m, "/flip/{id}", h); err != nil {
+							return err
+						}
+					}
+					return nil
+				})
+				cur, other = other, cur
+			}
+			stop.Store(true)
+		}()
+		for rd := 0; rd < 6; rd++ {
+			wg.Add(1)
+			go func(rd int) {
+				defer wg.Done()
+				for !stop.Load() {
+					method := "DELETE"
+					if rd%2 == 1 {
+						method = "OPTIONS"
+					}
+					w := &allowW{h: http.Header{}}
+					f.ServeHTTP(w, &http.Request{Method: method, URL: &url.URL{Path: "/flip/1"}, Header: http.Header{}, Proto: "HTTP/1.1", ProtoMajor: 1, ProtoMinor: 1})
+					parts := strings.Split(w.h.Get("Allow"), ", ")
+					sort.Strings(parts)
+					got := strings.Join(parts, ", ")
+					replies.Add(1)
+					if !want[got] {
+						mixed.Add(1)
+						stop.Store(true)
+						run.Violate(fmt.Sprintf("torn-allow|round=%d", round), fmt.Sprintf("a %s request answered while transactions flip the method set of its path got Allow=%q: neither the set before nor the set after a transaction", method, w.h.Get("Allow")), map[string]any{"round": round, "allow": w.h.Get("Allow")})
+					}
+				}
+			}(rd)
+		}
+		wg.Wait()
+		run.Case(fmt.Sprintf("allow-flip|%d", round), true)
+	}
+	run.Count("concurrent_allow_replies", replies.Load())
+	run.Count("concurrent_allow_mixed", mixed.Load())
+}
+
+type allowW struct{ h http.Header }
+
+func (w *allowW) Header() http.Header         { return w.h }
+func (w *allowW) Write(b []byte) (int, error) { return len(b), nil }
+func (w *allowW) WriteHeader(int)             {}
